@@ -33,6 +33,7 @@ CONSTANTS
     AllowMulti,    \* explore MultipleExceptions ends
     OnExcChoices,  \* subset of BOOLEAN: with / without an addOnException handler
     PreForceChoices, \* subset of BOOLEAN: force_failure already set on the instance before run()
+    XfDecChoices,    \* subset of BOOLEAN: the test method carries unittest.expectedFailure
     StepOps,       \* non-final user operations explored in free mode
     Variant        \* "asRequired" | "asCoded": how Report selects the outcome
 
@@ -42,8 +43,9 @@ SysUnit(u) == u \notin StageUnits /\ u \notin CleanupIds
 \*   "undo:<attr>", "fxgather:<f>", "fxclean:<f>"  (built by the MC module through these operators)
 CONSTANTS UndoOf(_), GatherOf(_), CleanOf(_),     \* attr / fixture id -> system cleanup id
           FixtureSetUpFails(_),                   \* fixture id -> BOOLEAN
-          FixtureFailCount(_),                    \* fixture id -> number of exceptions its failing setUp raises (MultipleExceptions,
-                                                  \*   nested for a fixture whose CHILD fixture fails: original, SetupError, SetupError)
+          FixtureFailKinds(_),                    \* fixture id -> kinds its failing setUp raises: MultipleExceptions(original, SetupError)
+                                                  \*   (nested when a CHILD fixture fails: original, SetupError, SetupError), or a single
+                                                  \*   KeyboardInterrupt from a classic fixture that overrides setUp()
           FixtureCleanKind(_),                    \* fixture id -> kind raised by cleanUp, or None
           FixtureGatherRaises(_),                 \* fixture id -> BOOLEAN: reading its details raises when they are gathered
           FixtureDetails(_),                      \* fixture id -> set of detail names it carries
@@ -69,6 +71,7 @@ VARIABLES
     setupOk,     \* setUp returned normally
     force,       \* force_failure set (expectThat mismatch, or set on the instance beforehand)
     force0,      \* force_failure as it was before the first run (part of the program)
+    xfdec,       \* TRUE: the test method carries the unittest.expectedFailure decorator (part of the program)
     details,     \* Name -> [origin, cid]: the test's details dict
     tbNext,      \* next traceback number (TestCase._traceback_id_gens)
     added,       \* set of [origin, cid, base] ever added (nothing is ever removed)
@@ -81,7 +84,7 @@ VARIABLES
     nsteps,      \* non-final user steps in this run
     prev         \* <<summary of the previous run of this instance>> (<<>> for run 1)
 
-vars == <<pc, run, mode, decor, onexc, force0, script, cur, pos, upcalled, stack, registered, ran, seen, raised, setupOk,
+vars == <<pc, run, mode, decor, onexc, force0, xfdec, script, cur, pos, upcalled, stack, registered, ran, seen, raised, setupOk,
           force, details, tbNext, added, hcalls, attrs, rlog, outcomeHcalls, propagated, nfaults, nsteps, prev>>
 
 -----------------------------------------------------------------------------
@@ -118,7 +121,7 @@ TbName(n, dom) == IF Name("traceback", n) \in dom THEN TbName(n + 1, dom) ELSE n
 \* effect of ONE exception of kind k raised in unit u reaching _got_user_exception:
 \* onException adds a traceback (unless exactly skip / uxs / xfail) and calls each handler once.
 \* (the xfail's assertion traceback is attached by expectFailure itself, before the raise)
-TbAddedBy(k) == k \notin {"skip", "skipobj", "uxs"}
+TbAddedBy(k) == k \notin {"skip", "skipobj", "uxs", "xfaild", "uxsd"}
 RECURSIVE Caught(_, _, _, _, _, _)
 \* returns <<details, tbNext, added, raised>> after processing the kinds in ks (a sequence)
 Caught(ks, u, d, tn, ad, rs) ==
@@ -142,6 +145,7 @@ Init ==
     /\ pc = "idle" /\ run = 1 /\ mode = "free"
     /\ decor \in (IF AllowDecor THEN BOOLEAN ELSE {FALSE})
     /\ onexc \in OnExcChoices
+    /\ xfdec \in XfDecChoices /\ ~(decor /\ xfdec)
     /\ script = [u \in Units |-> <<>>]
     /\ cur = None /\ pos = 0 /\ upcalled = FALSE
     /\ stack = <<>> /\ registered = <<>> /\ ran = <<>> /\ seen = <<>> /\ raised = <<>>
@@ -159,7 +163,7 @@ StartTest ==
     /\ rlog' = Append(rlog, Ev("startTest", None))
     /\ pc' = IF decor THEN "decorskip" ELSE "enter"
     /\ cur' = IF decor THEN None ELSE "setUp"
-    /\ UNCHANGED <<run, mode, decor, onexc, force0, script, pos, upcalled, stack, registered, ran, seen, raised, setupOk, force,
+    /\ UNCHANGED <<run, mode, decor, onexc, force0, xfdec, script, pos, upcalled, stack, registered, ran, seen, raised, setupOk, force,
                    details, tbNext, added, hcalls, attrs, outcomeHcalls, propagated, nfaults, nsteps, prev>>
 
 \* _run_core: skip decorator => addSkip, no stage runs
@@ -168,7 +172,7 @@ DecoratedSkip ==
     /\ rlog' = Append(rlog, Ev("outcome", "skip"))
     /\ outcomeHcalls' = hcalls
     /\ pc' = "stop"
-    /\ UNCHANGED <<run, mode, decor, onexc, force0, script, cur, pos, upcalled, stack, registered, ran, seen, raised, setupOk,
+    /\ UNCHANGED <<run, mode, decor, onexc, force0, xfdec, script, cur, pos, upcalled, stack, registered, ran, seen, raised, setupOk,
                    force, details, tbNext, added, hcalls, attrs, propagated, nfaults, nsteps, prev>>
 
 \* the framework calls into a unit of user code
@@ -177,7 +181,7 @@ EnterUnit ==
     /\ ran' = Append(ran, cur) /\ seen' = Append(seen, attrs)
     /\ pos' = 0 /\ upcalled' = FALSE
     /\ pc' = "unit"
-    /\ UNCHANGED <<run, mode, decor, onexc, force0, script, cur, stack, registered, raised, setupOk, force, details,
+    /\ UNCHANGED <<run, mode, decor, onexc, force0, xfdec, script, cur, stack, registered, raised, setupOk, force, details,
                    tbNext, added, hcalls, attrs, rlog, outcomeHcalls, propagated, nfaults, nsteps, prev>>
 
 -----------------------------------------------------------------------------
@@ -265,7 +269,7 @@ Step ==
           /\ upcalled' = (upcalled \/ s.op = "upcall")
           /\ pos' = pos + 1 /\ nsteps' = nsteps + 1
           /\ script' = IF mode = "free" THEN [script EXCEPT ![cur] = Append(@, s)] ELSE script
-    /\ UNCHANGED <<pc, run, mode, decor, onexc, force0, cur, ran, seen, setupOk, rlog, outcomeHcalls, propagated, nfaults, prev>>
+    /\ UNCHANGED <<pc, run, mode, decor, onexc, force0, xfdec, cur, ran, seen, setupOk, rlog, outcomeHcalls, propagated, nfaults, prev>>
 
 \* where control goes after unit u finished (ok = returned normally)
 After(u, ok) ==
@@ -282,7 +286,15 @@ RaisedBy(s) ==
       [] s.op = "raise2" -> <<s.a, s.b>>
       [] s.op = "raise2n" -> <<s.a, s.b>>   \* MultipleExceptions nested in a MultipleExceptions
       [] s.op = "raise0" -> <<"err">>       \* MultipleExceptions with no constituents: an error in its own right
-      [] s.op = "failfixture" -> [i \in 1..FixtureFailCount(s.a) |-> "err"]   \* MultipleExceptions(original, SetupError[, SetupError])
+      [] s.op = "failfixture" -> FixtureFailKinds(s.a)
+
+\* unittest.expectedFailure wraps the test method: a normal return becomes _UnexpectedSuccess, any Exception
+\* (also a skip, also a MultipleExceptions object as a whole) becomes _ExpectedFailure; a non-Exception passes
+XfWrap(s, ks) ==
+    IF ~(xfdec /\ cur = "body") THEN ks
+    ELSE IF ks = <<>> THEN <<"uxsd">>
+    ELSE IF s.op = "raise" /\ s.a \in BaseKinds THEN ks
+    ELSE <<"xfaild">>
 
 \* the unit ends: returns or raises; exceptions go through _got_user_exception
 EndUnit ==
@@ -290,7 +302,7 @@ EndUnit ==
     /\ \E s \in NextStep :
           /\ s.op \in EndOps
           /\ s.op = "retnoup" => cur \in {"setUp", "tearDown"} /\ ~upcalled
-          /\ LET ks == RaisedBy(s)
+          /\ LET ks == XfWrap(s, RaisedBy(s))
                  \* a fixture whose setUp fails: its details are gathered into the test's first
                  fxd == IF s.op = "failfixture" THEN FixtureDetails(s.a) ELSE {}
                  pre == "fx:" \o s.a \o ":"
@@ -307,7 +319,7 @@ EndUnit ==
                 /\ cur' = After(cur, ks = <<>>)[2]
           /\ script' = IF mode = "free" THEN [script EXCEPT ![cur] = Append(@, s)] ELSE script
     /\ pos' = 0 /\ upcalled' = FALSE
-    /\ UNCHANGED <<run, mode, decor, onexc, force0, stack, registered, ran, seen, force, attrs, rlog, outcomeHcalls, propagated,
+    /\ UNCHANGED <<run, mode, decor, onexc, force0, xfdec, stack, registered, ran, seen, force, attrs, rlog, outcomeHcalls, propagated,
                    nsteps, prev>>
 
 -----------------------------------------------------------------------------
@@ -317,13 +329,13 @@ PopCleanup ==
     /\ cur' = Last(stack)
     /\ stack' = Front(stack)
     /\ pc' = "enter"
-    /\ UNCHANGED <<run, mode, decor, onexc, force0, script, pos, upcalled, registered, ran, seen, raised, setupOk, force, details,
+    /\ UNCHANGED <<run, mode, decor, onexc, force0, xfdec, script, pos, upcalled, registered, ran, seen, raised, setupOk, force, details,
                    tbNext, added, hcalls, attrs, rlog, outcomeHcalls, propagated, nfaults, nsteps, prev>>
 
 CleanupsDone ==
     /\ pc = "cleanups" /\ stack = <<>>
     /\ pc' = "force" /\ cur' = None
-    /\ UNCHANGED <<run, mode, decor, onexc, force0, script, pos, upcalled, stack, registered, ran, seen, raised, setupOk, force,
+    /\ UNCHANGED <<run, mode, decor, onexc, force0, xfdec, script, pos, upcalled, stack, registered, ran, seen, raised, setupOk, force,
                    details, tbNext, added, hcalls, attrs, rlog, outcomeHcalls, propagated, nfaults, nsteps, prev>>
 
 \* system cleanups: patch undo, fixture gather_details, fixture cleanUp
@@ -355,7 +367,7 @@ SysCleanup ==
             /\ nfaults' = nfaults
             /\ UNCHANGED attrs
     /\ pc' = "cleanups" /\ cur' = None
-    /\ UNCHANGED <<run, mode, decor, onexc, force0, script, pos, upcalled, stack, registered, ran, seen, setupOk, force, rlog,
+    /\ UNCHANGED <<run, mode, decor, onexc, force0, xfdec, script, pos, upcalled, stack, registered, ran, seen, setupOk, force, rlog,
                    outcomeHcalls, propagated, nsteps, prev>>
 
 \* force_failure => _run_user(_raise_force_fail_error): one more "fail" from the framework's own unit
@@ -367,7 +379,7 @@ ForceFail ==
             /\ hcalls' = hcalls + (IF onexc THEN 1 ELSE 0)
        ELSE UNCHANGED <<details, tbNext, added, raised, hcalls>>
     /\ pc' = "report"
-    /\ UNCHANGED <<run, mode, decor, onexc, force0, script, cur, pos, upcalled, stack, registered, ran, seen, setupOk, force,
+    /\ UNCHANGED <<run, mode, decor, onexc, force0, xfdec, script, cur, pos, upcalled, stack, registered, ran, seen, setupOk, force,
                    attrs, rlog, outcomeHcalls, propagated, nfaults, nsteps, prev>>
 
 -----------------------------------------------------------------------------
@@ -384,7 +396,7 @@ ReportWith(o, p) ==
                 THEN added \cup {[origin |-> "reason", cid |-> "skipreason", base |-> "reason"]} ELSE added
     /\ outcomeHcalls' = hcalls
     /\ pc' = "stop"
-    /\ UNCHANGED <<run, mode, decor, onexc, force0, script, cur, pos, upcalled, stack, registered, ran, seen, raised, setupOk,
+    /\ UNCHANGED <<run, mode, decor, onexc, force0, xfdec, script, cur, pos, upcalled, stack, registered, ran, seen, raised, setupOk,
                    force, details, tbNext, hcalls, attrs, nfaults, nsteps, prev>>
 
 Report ==
@@ -402,7 +414,7 @@ StopTest ==
     /\ pc = "stop"
     /\ rlog' = Append(rlog, Ev("stopTest", None))
     /\ pc' = "done"
-    /\ UNCHANGED <<run, mode, decor, onexc, force0, script, cur, pos, upcalled, stack, registered, ran, seen, raised, setupOk,
+    /\ UNCHANGED <<run, mode, decor, onexc, force0, xfdec, script, cur, pos, upcalled, stack, registered, ran, seen, raised, setupOk,
                    force, details, tbNext, added, hcalls, attrs, outcomeHcalls, propagated, nfaults, nsteps, prev>>
 
 OutcomeOf(l) == IF \E i \in DOMAIN l : l[i].ev = "outcome"
@@ -419,7 +431,7 @@ Rerun ==
     /\ setupOk' = FALSE
     /\ details' = <<>> /\ tbNext' = 0 /\ added' = {} /\ hcalls' = 0
     /\ rlog' = <<>> /\ outcomeHcalls' = 0 /\ propagated' = None /\ nfaults' = 0 /\ nsteps' = 0
-    /\ UNCHANGED <<decor, onexc, force0, script, force, attrs>>
+    /\ UNCHANGED <<decor, onexc, force0, xfdec, script, force, attrs>>
 
 Next == StartTest \/ DecoratedSkip \/ EnterUnit \/ Step \/ EndUnit \/ PopCleanup \/ CleanupsDone
         \/ SysCleanup \/ ForceFail \/ Report \/ StopTest \/ Rerun
@@ -482,7 +494,7 @@ HandlersCalled == pc \in {"stop", "done"} =>
 
 -----------------------------------------------------------------------------
 (* Export: one program (script + flags) per complete first run              *)
-Program == [decor |-> decor, onexc |-> onexc, preforce |-> force0, script |-> script]
+Program == [decor |-> decor, onexc |-> onexc, preforce |-> force0, xfdec |-> xfdec, script |-> script]
 Expected == [ran |-> ran, seen |-> seen, raised |-> raised, setupOk |-> setupOk, registered |-> registered,
              allowed |-> Allowed(raised), mayprop |-> MayPropagate(raised),
              nadded |-> Cardinality(added), force |-> force]
